@@ -719,22 +719,21 @@ theorem kstop_wf (s : KStore) (api : Bool) (h : s.WF) : (s.stop api).1.WF := by
   split
   · exact h
   · split
-    · exact h
+    · intro _; rfl
     · intro _; rfl
 
-/-- a `Stop()` that returned nil leaves no flusher behind -/
-theorem kstop_ok (s : KStore) (api : Bool) (h : s.WF) (hok : (s.stop api).2 = true) :
-    (s.stop api).1.flusherRunning = false := by
-  unfold KStore.stop at hok ⊢
-  by_cases hs : s.stopped = true
-  · simp only [hs, if_true]
-    unfold KStore.flusherRunning
-    simp [h hs]
-  · simp only [hs] at hok ⊢
-    by_cases h2 : (!s.flushOk api) = true
-    · simp [h2] at hok
-    · simp only [h2]
-      unfold KStore.flusherRunning; simp
+/-- after ANY `Stop()` - failed or not - `stopCh` is closed -/
+theorem kstop_closed (s : KStore) (api : Bool) (h : s.WF) : (s.stop api).1.stopCh = true := by
+  unfold KStore.stop
+  split
+  · rename_i hs; exact h hs
+  · split <;> rfl
+
+theorem kstop_keeps_closed (s : KStore) (api : Bool) (h : s.stopCh = true) : (s.stop api).1.stopCh = true := by
+  unfold KStore.stop
+  split
+  · exact h
+  · split <;> rfl
 
 theorem stopWithRetry_wf (fuel : Nat) (api : List Bool) (s : KStore) (h : s.WF) : (stopWithRetry fuel api s).1.WF := by
   induction fuel generalizing api s with
@@ -746,18 +745,25 @@ theorem stopWithRetry_wf (fuel : Nat) (api : List Bool) (s : KStore) (h : s.WF) 
     · exact kstop_wf s _ h
     · exact ih _ _ (kstop_wf s _ h)
 
-theorem stopWithRetry_ok (fuel : Nat) (api : List Bool) (s : KStore) (h : s.WF)
-    (hok : (stopWithRetry fuel api s).2.1 = true) : (stopWithRetry fuel api s).1.flusherRunning = false := by
+theorem stopWithRetry_keeps_closed (fuel : Nat) (api : List Bool) (s : KStore) (h : s.stopCh = true) :
+    (stopWithRetry fuel api s).1.stopCh = true := by
   induction fuel generalizing api s with
-  | zero => simp [stopWithRetry] at hok
+  | zero => exact h
   | succ fuel ih =>
-    unfold stopWithRetry at hok ⊢
-    simp only at hok ⊢
+    unfold stopWithRetry
+    simp only
     split
-    · rename_i h1; exact kstop_ok s _ h h1
-    · rename_i h1
-      simp only [h1] at hok
-      exact ih _ _ (kstop_wf s _ h) hok
+    · exact kstop_keeps_closed s _ h
+    · exact ih _ _ (kstop_keeps_closed s _ h)
+
+/-- the retry loop, once entered, leaves `stopCh` closed - whether it succeeds or gives up -/
+theorem stopWithRetry_closed (fuel : Nat) (api : List Bool) (s : KStore) (h : s.WF) :
+    (stopWithRetry (fuel + 1) api s).1.stopCh = true := by
+  unfold stopWithRetry
+  simp only
+  split
+  · exact kstop_closed s _ h
+  · exact stopWithRetry_keeps_closed _ _ _ (kstop_closed s _ h)
 
 theorem kstop_api_ok (s : KStore) : (s.stop true).2 = true := by
   unfold KStore.stop KStore.flushOk
